@@ -403,10 +403,49 @@ def d5_no_live_mutation(chk: Check, rid: str = "C10-D5",
             chk.ok(rid, fi, fi.node, fi.short, "loop ok", False)
 
 
+def d3c_recursion_forwards(chk: Check) -> None:
+    """A walker that recurses with its own parameters passes each one in
+    its own position: `rename_anchor(ele, new_anchor, anchor)` below a
+    sequence renames the new name back to the old one."""
+    prog = chk.prog
+    chk.rule("C10-D3c", "in self-recursive calls (anchors.py, merger.py) a "
+             "parameter handed on occupies its own position", floor=8)
+    for fi in prog.functions.values():
+        if not fi.module.relpath.startswith(("yamlpath/common/anchors.py",
+                                             "yamlpath/merger/")):
+            continue
+        ps = [a.arg for a in fi.node.args.args]
+        name = fi.node.name
+        for c in walk_local(fi.node):
+            if not (isinstance(c, ast.Call) and
+                    src(c.func).split(".")[-1] == name) or \
+                    src(c.func).startswith("super()"):
+                continue
+            off = 1 if ps and ps[0] in ("self", "cls") and \
+                isinstance(c.func, ast.Attribute) and \
+                src(c.func.value) in ("self", "cls") else 0
+            for i, a in enumerate(c.args):
+                if not (isinstance(a, ast.Name) and a.id in ps):
+                    continue
+                pos = ps.index(a.id) - off
+                text = "{}: {}".format(fi.short, src(c)[:60])
+                if pos == i:
+                    chk.ok("C10-D3c", fi, c, text, "`{}` in its own "
+                           "position".format(a.id), False)
+                else:
+                    chk.fail("C10-D3c", fi, c, text,
+                             "parameter `{}` is handed on in the position "
+                             "of `{}`: below this point the walk works with "
+                             "the two exchanged".format(
+                                 a.id, ps[i + off] if i + off < len(ps)
+                                 else "?"))
+
+
 def run(chk: Check) -> None:
     d1_policy(chk)
     d2_unique(chk)
     d3_traversal(chk)
     d3b_every_member(chk)
+    d3c_recursion_forwards(chk)
     d4_fresh_tables(chk)
     d5_no_live_mutation(chk)
